@@ -29,7 +29,7 @@ OUT_OF_SCOPE = {"xgi.drawing.draw:draw_directed_dyads": "not among the functions
 def run(ctx):
     repo = ctx.repo
     res = Result(PROP)
-    res.rules = ["K1", "K2", "K5", "L-KEYS", "L-ORDER", "L-RANGE", "L-CUT", "L-FACEID"]
+    res.rules = ["K1", "K2", "K5", "L-KEYS", "L-ORDER", "L-RANGE", "L-CUT", "L-FACEID", "L-FLOW"]
     res.explanation = (
         "Narrow claim: kind inference (labels vs positions) over the layout and drawing modules, key provenance of the "
         "dict every layout returns, and agreement of the permutation applied to per-edge style arrays and patches. "
@@ -55,6 +55,10 @@ def run(ctx):
     check_order(repo, res)
     check_range(repo, res, fns)
     check_cut(repo, res)
+    from .common import check_dead_params
+
+    nd = check_dead_params(res, PROP, "L-FLOW", [f for f in fns if f.module.name.endswith(".layout")], "the positions returned")
+    res.floor("layout functions checked for dead parameters", nd, 8)
     from .common import pattern_lint, raw_tuple_dedupe_sites
 
     pattern_lint(res, PROP, "L-FACEID", fns, raw_tuple_dedupe_sites,
